@@ -66,6 +66,13 @@ class Optional(Spec):
         self.inner = inner
 
 
+class MapOf(Spec):
+    """dict with symbolic integer keys whose values are objects of class `cls` with the given scalar (ghost) fields."""
+
+    def __init__(self, cls, **fields):
+        self.cls, self.fields = cls, fields
+
+
 class Root(Spec):
     """Reference to the outermost object of the parameter being built (cyclic input structures, e.g. a ghost owner link)."""
 
